@@ -116,7 +116,7 @@ async def evaluate(mpc, e, idx, arg):
     elif op == 'trunc':
         r = mpc.trunc(a, e['n'])
         v = await mpc.output(r, raw=True)
-        return [int(v.signed_()) if hasattr(v, 'signed_') else int(v), bool(r.integral)]
+        return [int(v.signed_()) if hasattr(v, 'signed_') else int(v), bool(r.integral), int(await mpc.output(a, raw=True))]
     elif op == 'pow':
         r = a ** e['n']
     elif op == 'sin':
@@ -124,7 +124,8 @@ async def evaluate(mpc, e, idx, arg):
     elif op == 'cos':
         r = mpc.cos(a)
     v = await mpc.output(r, raw=True)
-    return [int(v), bool(r.integral)]
+    # the operand itself must be unchanged by the operation (secure objects are immutable values)
+    return [int(v), bool(r.integral), int(await mpc.output(a, raw=True))]
 
 
 def collect(ctx, cases, m, t, no_prss, tag, evaluator=evaluate, prop='C02'):
@@ -142,12 +143,16 @@ def collect(ctx, cases, m, t, no_prss, tag, evaluator=evaluate, prop='C02'):
         ev['res'] = [x[0] for x in r]
         ev['integral'] = bool(r[0][1])
         evs.append(ev)
+        if prop == 'C02' and e['op'] != 'rec' and all(len(x) > 2 for x in r):
+            evs.append(dict(e, op='input', res=[x[2] for x in r], integral=False, after=e['op']))
         ctx.case((e['l'], e['f'], e['op'], e['a'], e['b'], e['n'], e['cn'], e['cd']))
     return evs
 
 
 def key_c02(e, inv):
     wide = e['l'] > 2 * e['f'] + 1
+    if e.get('after'):
+        return f'C02:{e["after"]}:operand-changed-by-operation'
     return f'C02:{e["op"]}:{inv}' + (':l>2f+1' if wide else '')
 
 
